@@ -1,4 +1,5 @@
 import Grexv.Model.Api
+import Grexv.Lemmas.Lex
 
 /-!
 # C07 — build() is total and returns a syntactically valid regex; panics only where documented
@@ -87,5 +88,18 @@ theorem unanchored_build_sites (cfg : Config) (env : Env) (ws : List Str) (e : P
           repeat' (split at he)
           all_goals simp at he
     · simp at he
+
+/-! ## syntactic validity at the literal level (generated escape lists) -/
+
+/-- **C07/C01 (literals)** for every code point, what the literal printer writes (the generated
+`CHARS_TO_ESCAPE`, `\n \r \t`, the lone backslash) is read back by the parser as that code point -/
+theorem literal_lexes (c : Nat) : Lex.parsesAsChar (escapeSymbols [c]) c = true := Lex.literal_lexes c
+
+/-- the operator texts of the printer are the regex crate's operators (generated from component.rs) -/
+theorem component_texts :
+    Gen.strPipe = strOf "|" ∧ Gen.strLeftBracket = strOf "[" ∧ Gen.strRightBracket = strOf "]" ∧
+    Gen.strHyphen = strOf "-" ∧ Gen.strCapturedLeftParen = strOf "(" ∧ Gen.strUncapturedLeftParen = strOf "(?:" ∧
+    Gen.strRightParen = strOf ")" ∧ Gen.strStar = strOf "*" ∧ Gen.strQuestion = strOf "?" ∧
+    Gen.strCaret = strOf "^" ∧ Gen.strDollar = strOf "$" := by decide
 
 end Grexv.Props.C07
